@@ -40,13 +40,17 @@ static struct {
 	/* C03: a request must be reflected in the returned time if it was accepted before the scheduler's last
 	 * own write to its state in that pass (the final look at the atomic queue has to come after the scheduler
 	 * has finished changing its queues); later ones may or may not be seen */
-	uint16_t ra_seq, last_write_seq; uint16_t ra_first_seq[NFIB];
+	uint16_t ra_seq, last_write_seq, pass_seq; uint16_t ra_first_seq[NFIB];
+	uint8_t ra_inpass[NFIB];	/* requests accepted since the current pass began */
+	uint8_t ra_ev;			/* how many of the pending requests for H were posted by fibre_eventq_send rather than by a caller */
+	uint16_t evseq, ev_cseq[4], ev_sseq[4], ev_begin[8];	/* when each slot was claimed / its send returned, on one counter */
 } G;
 static void on_plain_write(int ctx, const char *region, size_t off)
 {
 	(void)off;
 	if (ctx == 0 && G.in_pass && !strcmp(region, "kernel")) G.last_write_seq = G.ra_seq;
 }
+static void clamp_ra_ev(void) { if (G.ra_ev > G.ra[F_H]) G.ra_ev = G.ra[F_H]; }
 static uint64_t n_ra_ok, n_ra_refused, n_ev_ok, n_ev_refused_claim, n_ev_send_false, n_dispatch, n_events_seen, n_wake_checked, n_wake_lenient, foreign;
 static const char *fname[] = { "H(event handler)", "Y(yielder)", "Z(sleeper)" };
 
@@ -71,15 +75,18 @@ void orc_dispatch(int f, int entered)
 	(void)entered;
 	n_dispatch++;
 	vs_trace("dispatch of %s begins", fname[f]);
-	if (!G.in_pass) report(OWN6, "dispatch-outside-pass", "body of %s runs outside fibre_scheduler_next", fname[f]);
-	if (G.dispatched >= 0) report(OWN6 | OWN1, "multi-dispatch", "two fibre bodies (%s and %s) run in one scheduling pass", fname[G.dispatched], fname[f]);
+	if (!G.in_pass) report(OWN1, "dispatch-outside-pass", "body of %s runs outside fibre_scheduler_next", fname[f]);
+	if (G.dispatched >= 0) report(OWN1, "multi-dispatch", "two fibre bodies (%s and %s) run in one scheduling pass", fname[G.dispatched], fname[f]);
 	G.dispatched = (int8_t)f;
+	/* A request for this very fibre that was accepted during this pass may have come before or after the drain that
+	 * precedes the dispatch (wherever the code has a point at which an interrupt can land): it is either consumed by
+	 * this dispatch or still queued - both are fine. Requests accepted before the pass began have been drained. */
+	int amb = G.ra[f] && (C6.fine || G.ra_inpass[f]);
 	if (!C6.threads && !C6.fine) convert_pending_requests();
-	/* with interrupts placed anywhere, a request for this very fibre that arrived in this pass may have come before or
-	 * after the drain: it is either consumed by this dispatch or still queued - both are fine */
-	int amb = C6.fine && G.ra[f];
 	int has = (G.reason[f] & (R_RUN | R_YIELD)) || G.ra[f] || G.may[f] || G.sticky[f] || (f == F_Z && timer_due());
-	if (!has) report(OWN6 | OWN1, "spurious-dispatch", "%s is dispatched although nothing made it runnable since its last dispatch", fname[f]);
+	/* C06's statement obliges a dispatch after an accepted request; it does not forbid an extra one (that is C01's clause,
+	 * over sequential histories) */
+	if (!has) report(OWN1, "spurious-dispatch", "%s is dispatched although nothing made it runnable since its last dispatch", fname[f]);
 	G.reason[f] = 0; G.may[f] = 0;
 	if (C6.threads && G.ra[f]) { G.ra[f] = 0; }
 	if (amb) { G.ra[f] = 0; G.may[f] = 1; }	/* free threads: the request may or may not have been drained yet */
@@ -105,12 +112,17 @@ void orc_event(int f, int slot, uint8_t a, uint8_t b)
 	if (slot < 0 || slot >= C6.evq_depth) report(OWN6, "event-pointer", "the handler fibre received a pointer outside the event queue");
 	if (G.evst[slot] == EV_FREE) report(OWN6, "event-duplicate", "the handler fibre received slot %d (%02x %02x) which holds no undelivered event: a duplicate or an invented event", slot, a, b);
 	if (G.evst[slot] == EV_CLAIMED) report(OWN6, "event-unsent", "the handler fibre received slot %d before its owner sent it", slot);
-	if (slot != G.evnext) report(OWN6, "event-order", "the handler fibre received slot %d, events arrive in claim order and the next is slot %d", slot, G.evnext);
+	/* order: judged where it is beyond doubt - another event whose send had RETURNED before this one was even claimed must
+	 * have been received first (for sends that overlap, claim order and completion order differ and the statement's "send
+	 * order" does not say which it means) */
+	for (int u = 0; u < C6.evq_depth && u < 4; u++)
+		if (u != slot && G.evst[u] == EV_SENT && G.evst[slot] == EV_SENT && (int16_t)(G.ev_sseq[u] - G.ev_cseq[slot]) < 0)
+			report(OWN6, "event-order", "the handler fibre received slot %d before slot %d, whose send had returned before slot %d was even claimed", slot, u, slot);
 	uint8_t v = G.ev[slot];
 	if (a != v || b != (uint8_t)~v) report(OWN6, "event-content", "the handler fibre received %02x %02x in slot %d, the sender wrote %02x %02x", a, b, slot, v, (uint8_t)~v);
 	G.evst[slot] = EV_FREE; G.evmust[slot] = 0; G.evnext = (uint8_t)((G.evnext + 1) % C6.evq_depth);
 }
-void orc_pass_begin(int i, uint32_t t) { (void)i; G.in_pass = 1; G.dispatched = -1; G.pass_t = t; G.last_write_seq = G.ra_seq; vs_trace("pass %d: fibre_scheduler_next(%u)", i, t); }
+void orc_pass_begin(int i, uint32_t t) { (void)i; G.in_pass = 1; G.dispatched = -1; G.pass_t = t; G.last_write_seq = G.ra_seq; G.pass_seq = G.ra_seq; memset(G.ra_inpass, 0, sizeof(G.ra_inpass)); vs_trace("pass %d: fibre_scheduler_next(%u)", i, t); }
 void orc_pass_end(int i, uint32_t t, uint32_t wake, int self)
 {
 	(void)i;
@@ -160,34 +172,43 @@ void orc_main_call(int act, int begin, int result)
 		(void)result;
 		break;
 	case MA_RA_H:
+		clamp_ra_ev();
 		if (result) { G.ra_seq++; if (!G.ra[F_H]) G.ra_first_seq[F_H] = G.ra_seq; G.ra[F_H]++; n_ra_ok++; } else n_ra_refused++;
 		break;
 	}
 }
 void orc_ra(int f, bool ok)
 {
+	clamp_ra_ev();
 	vs_trace("interrupt side: fibre_run_atomic(%s) -> %d", fname[f], ok);
-	if (ok) { n_ra_ok++; G.ra_seq++; if (!G.ra[f]) G.ra_first_seq[f] = G.ra_seq; if (G.ra[f] < 200) G.ra[f]++; if (C6.threads) G.sticky[f] = 1; } else n_ra_refused++;
+	if (ok) { n_ra_ok++; G.ra_seq++; if (!G.ra[f]) G.ra_first_seq[f] = G.ra_seq; if (G.ra[f] < 200) G.ra[f]++; if (G.in_pass) G.ra_inpass[f] = 1; if (C6.threads) G.sticky[f] = 1; } else n_ra_refused++;
 }
-void orc_ev_claimed(uint8_t v, int slot)
+void orc_ev_claim_begin(int who) { G.ev_begin[who & 7] = ++G.evseq; }	/* stamped BEFORE the call: the claim happened no earlier */
+void orc_ev_claimed(uint8_t v, int slot, int who)
 {
 	vs_trace("interrupt side: event %02x: claim -> slot %d", v, slot);
 	if (slot < 0) { n_ev_refused_claim++; return; }
 	if (slot >= C6.evq_depth || G.evst[slot] != EV_FREE) report(OWN6, "event-claim", "fibre_eventq_claim handed out slot %d which still holds an undelivered event", slot);
-	G.ev[slot] = v; G.evst[slot] = EV_CLAIMED; G.evmust[slot] = 0;
+	G.ev[slot] = v; G.evst[slot] = EV_CLAIMED; G.evmust[slot] = 0; G.ev_cseq[slot] = G.ev_begin[who & 7];
 }
 void orc_ev_send_begin(int slot) { G.evst[slot] = EV_SENDING; }
 void orc_ev_sent(int slot, bool ok)
 {
 	vs_trace("interrupt side: fibre_eventq_send(slot %d) -> %d", slot, ok);
+	clamp_ra_ev();
 	/* the handler fibre may already have consumed it (free threads) */
-	if (G.evst[slot] == EV_SENDING) { G.evst[slot] = EV_SENT; G.evmust[slot] = ok; }
-	if (ok) { n_ev_ok++; G.ra_seq++; if (!G.ra[F_H]) G.ra_first_seq[F_H] = G.ra_seq; if (G.ra[F_H] < 200) G.ra[F_H]++; if (C6.threads) G.sticky[F_H] = 1; } else n_ev_send_false++;
+	if (G.evst[slot] == EV_SENDING) { G.evst[slot] = EV_SENT; G.evmust[slot] = ok; G.ev_sseq[slot] = ++G.evseq; }
+	/* the wake-up a successful send posts is tracked like a request (C03 needs it for the returned time), but what the
+	 * statement obliges is the delivery of the EVENT (evmust), not one dispatch per send: see scn_end */
+	if (ok) { n_ev_ok++; G.ra_seq++; if (!G.ra[F_H]) G.ra_first_seq[F_H] = G.ra_seq; if (G.ra[F_H] < 200) { G.ra[F_H]++; G.ra_ev++; } if (G.in_pass) G.ra_inpass[F_H] = 1; if (C6.threads) G.sticky[F_H] = 1; } else n_ev_send_false++;
 }
 void orc_queue_problem(const char *what) { report(OWN6, "queue-corrupted", "%s", what); }
 void orc_threads_done_wait_begin(void) { vs_trace("main loop waits for the interrupt-side threads"); }
+int orc_undecided(void) { for (int f = 0; f < NFIB; f++) if (G.may[f] || G.sticky[f]) return 1; return 0; }
+int orc_events_all_free(void) { for (int i = 0; i < 4; i++) if (G.evst[i] != EV_FREE) return 0; return 1; }
 int orc_more_settle(void)
 {
+	clamp_ra_ev();
 	for (int f = 0; f < NFIB; f++) if ((G.reason[f] & (R_RUN | R_YIELD)) || G.ra[f]) return 1;
 	for (int i = 0; i < 4; i++) if (G.evst[i] == EV_SENT && G.evmust[i]) return 1;
 	if (G.sleeping && (int32_t)(G.due - (G.pass_t + 1)) <= 0) return 1;
@@ -205,8 +226,9 @@ static void scn_init(void)
 }
 static void scn_end(void)
 {
+	clamp_ra_ev();
 	for (int f = 0; f < NFIB; f++) {
-		if (G.ra[f]) report(OWN6, "lost-wakeup", "fibre_run_atomic(%s) returned true but %s was never dispatched afterwards although the main loop kept scheduling with no further stimulus", fname[f], fname[f]);
+		if (G.ra[f] && !(f == F_H && G.ra_ev == G.ra[F_H])) report(OWN6, "lost-wakeup", "fibre_run_atomic(%s) returned true but %s was never dispatched afterwards although the main loop kept scheduling with no further stimulus", fname[f], fname[f]);
 		if (G.reason[f] & (R_RUN | R_YIELD)) report(OWN6 | OWN1, "lost-run", "%s was made runnable but is never dispatched", fname[f]);
 	}
 	for (int i = 0; i < 4; i++) if (G.evst[i] == EV_SENT && G.evmust[i])
@@ -305,6 +327,13 @@ static void enumerate(void)
 		c.hk[0] = HK_EV1; c.hk[1] = HK_EV2; c.evq_depth = 1; c.prefill_aq = 0; cfgs[ncfg++] = c;
 		c.hk[0] = HK_RA_H; c.hk[1] = HK_EV1; c.evq_depth = 2; c.prefill_aq = 7; cfgs[ncfg++] = c;
 		c.hk[0] = HK_RA_Z; c.hk[1] = HK_RA_Y; c.evq_depth = 2; c.prefill_aq = 6; cfgs[ncfg++] = c;
+		/* a refusal aimed at a fibre that has nothing else pending: whoever is told "true" must be served */
+		c.hk[0] = HK_RA_Y; c.hk[1] = HK_EV1; c.prefill_aq = 7; cfgs[ncfg++] = c;
+		c.hk[0] = HK_RA_Y; c.hk[1] = HK_RA_Z; c.prefill_aq = 7; cfgs[ncfg++] = c;
+		c.nh = 1; c.nest = 1;
+		c.hk[0] = HK_EV1; c.prefill_aq = 8; cfgs[ncfg++] = c;
+		c.hk[0] = HK_RA_Z; c.prefill_aq = 8; cfgs[ncfg++] = c;
+		c.hk[0] = HK_RA_H; c.prefill_aq = 8; cfgs[ncfg++] = c;
 	}
 }
 
